@@ -750,7 +750,7 @@ class ModelHist(Engine):
                   "with fractional bounds, per-type defaults keyed by unbounded types), ~25% of "
                   "them made faulty on purpose (incompatible value of every kind, conflicting effects of every pairing, "
                   "duplicate names incl. names of user types, fluents and objects, values too deep to print, a bulk add_objects cut short by a "
-                  "cancellation); ")
+                  "cancellation; in one run in five a chain of user types 3-13 levels deep with a side branch, objects and fluents at its deepest levels); ")
         if self.prop == "C22":
             return common + ("every replica is shadowed by a clone-free twin built from scratch by the operations delivered to it "
                              "(same acceptance required); one-sided effect pairs aimed at one fluent and timing across replicas; "
@@ -764,7 +764,7 @@ class ModelHist(Engine):
                              "distinct = digest of the (operation kind, outcome class) sequence")
         return ("script = one container kind (instantaneous action / one timing of a durative action / one timing of "
                 "the problem) + a multiset of 2-5 insertions (assign/increase/decrease, conditional or not, same or "
-                "different fluents and values incl. Int n vs explicit Real n, forall, simulated effect) applied to fresh containers "
+                "different fluents and values incl. Int n vs explicit Real n, forall, simulated effect writing 1 fluent or, in 30% of the scripts, 2-16 fluents) applied to fresh containers "
                 "(in 30% of the scripts replaced by their clone() after the k-th insertion of every order; in 30% the later insertions go "
                 "alternately to the container and to its clone, each compared with a container of its own) in 2-6 seeded "
                 "permutations (all when <= 4 insertions) -- same conflict verdict required -- and then 3-8 more "
